@@ -3,7 +3,7 @@
 From Coq Require Import ZArith List.
 From MomoCommon Require Import GenPrelude.
 From C13 Require Gen_Open2N2_m1 Gen_Open2N2_m2 Gen_Open2N2_nf SameCode.
-From C13 Require Gen_Open2N2 Gen_OpenN1 Gen_Open8 Open2N2_Proofs OpenN1_Proofs ProbeSeq OpenTable OpenInstances.
+From C13 Require Gen_Open2N2 Gen_OpenN1 Gen_Open8 Gen_Open2N2_ops Gen_OpenN1_ops Open2N2_Proofs OpenN1_Proofs ProbeSeq OpenTable BucketOps OpenInstances.
 Import ListNotations.
 Local Open Scope Z_scope.
 
@@ -58,44 +58,97 @@ Theorem C13_triangular_injective :
 Proof. exact ProbeSeq.tri_inj. Qed.
 Print Assumptions C13_triangular_injective.
 
-(* Table level ("Hence ..." of the property).  OpenTable.v models HashSet::pvAddNogrow / pvFind for an
-   open-addressing table with 2^n buckets of capacity cap, ANY hash function h, the generated probe step
-   and the generated bound encoder.  For every history of insertions and removals from the empty table,
-   a key that is present in some bucket is found by the bounded probe loop. *)
+(* Bucket bookkeeping that shares bytes with the bound (Open2N2: the two count bits of mState[1]; OpenN1/Open8: the
+   short-hash / state bytes of mData next to the bound byte, for BOTH values of the `reverse` template parameter:
+   HashBucketOpenN1 defaults to true, BucketOpen8 is BucketOpenN1<.,7,false>).  For ANY remaining arguments, AddCrt on a bucket that has
+   room and Remove on a bucket that has an item keep the encoding reachable, leave the decoded bound EXACTLY as it was,
+   and move the element count by exactly one. *)
+Theorem C13_open2n2_addcrt_keeps_bound :
+  forall a b, BucketOps.O2.good b -> 0 <= BucketOps.O2.cnt b < 3 ->
+    BucketOps.O2.good (BucketOps.O2.addP a b) /\ BucketOps.O2.dec (BucketOps.O2.addP a b) = BucketOps.O2.dec b /\
+    BucketOps.O2.cnt (BucketOps.O2.addP a b) = BucketOps.O2.cnt b + 1.
+Proof. exact BucketOps.O2.add_spec. Qed.
+Print Assumptions C13_open2n2_addcrt_keeps_bound.
+Theorem C13_open2n2_remove_keeps_bound :
+  forall a b b', BucketOps.O2.good b -> 0 < BucketOps.O2.cnt b <= 3 -> BucketOps.O2.remP a b = Some b' ->
+    BucketOps.O2.good b' /\ BucketOps.O2.dec b' = BucketOps.O2.dec b /\ BucketOps.O2.cnt b' = BucketOps.O2.cnt b - 1.
+Proof. exact BucketOps.O2.rem_spec. Qed.
+Print Assumptions C13_open2n2_remove_keeps_bound.
+Theorem C13_openn1_addcrt_keeps_bound :
+  forall rv mc, 1 <= mc <= 7 -> forall a d, BucketOps.N1.good rv mc d -> 0 <= BucketOps.N1.cnt rv mc d < mc ->
+    BucketOps.N1.good rv mc (BucketOps.N1.addP rv mc a d) /\
+    (forall L, Gen_OpenN1.GetMaxProbe mc (BucketOps.N1.addP rv mc a d) L = Gen_OpenN1.GetMaxProbe mc d L) /\
+    BucketOps.N1.cnt rv mc (BucketOps.N1.addP rv mc a d) = BucketOps.N1.cnt rv mc d + 1.
+Proof. exact BucketOps.N1.add_spec. Qed.
+Print Assumptions C13_openn1_addcrt_keeps_bound.
+Theorem C13_openn1_remove_keeps_bound :
+  forall rv mc, 1 <= mc <= 7 -> forall a d d', BucketOps.N1.good rv mc d -> 0 < BucketOps.N1.cnt rv mc d <= mc ->
+    BucketOps.N1.remP rv mc a d = Some d' ->
+    BucketOps.N1.good rv mc d' /\ (forall L, Gen_OpenN1.GetMaxProbe mc d' L = Gen_OpenN1.GetMaxProbe mc d L) /\
+    BucketOps.N1.cnt rv mc d' = BucketOps.N1.cnt rv mc d - 1.
+Proof. exact BucketOps.N1.rem_spec. Qed.
+Print Assumptions C13_openn1_remove_keeps_bound.
+(* the constructor / Clear (pvSetEmpty) give the state every history starts from: reachable, count 0, bound 0 *)
+Theorem C13_open2n2_empty_bucket :
+  BucketOps.O2.good BucketOps.O2.empty /\ BucketOps.O2.cnt BucketOps.O2.empty = 0 /\ BucketOps.O2.dec BucketOps.O2.empty = 0.
+Proof. exact BucketOps.O2.empty_good. Qed.
+Print Assumptions C13_open2n2_empty_bucket.
+Theorem C13_openn1_empty_bucket :
+  forall rv mc, 1 <= mc <= 7 -> forall d,
+    BucketOps.N1.good rv mc (Gen_OpenN1_ops.pvSetEmpty mc d) /\ BucketOps.N1.cnt rv mc (Gen_OpenN1_ops.pvSetEmpty mc d) = 0 /\
+    (forall L, 0 <= L -> Gen_OpenN1.GetMaxProbe mc (Gen_OpenN1_ops.pvSetEmpty mc d) L = 0).
+Proof. exact BucketOps.N1.empty_good. Qed.
+Print Assumptions C13_openn1_empty_bucket.
+
+(* Table level ("Hence ..." of the property).  OpenTable.v models HashSet::pvAddNogrow / pvFind / Remove for an
+   open-addressing table with 2^n buckets, ANY hash function h, the generated probe step, the generated bound
+   encoder AND the generated AddCrt / Remove bookkeeping of the bucket class applied to the bucket that gains or
+   loses the item (with arbitrary remaining arguments).  For every history of insertions and removals from the
+   table of freshly constructed buckets, a key that is present in some bucket is found by the bounded probe loop. *)
 Theorem C13_open2n2_present_key_always_found :
-  forall n cap h ops b k,
+  forall n h ops b k,
   0 <= n <= 63 -> (forall k, 0 <= h k < 2 ^ n) ->
-  let s := fold_left (OpenTable.step n Gen_Open2N2.GetNextBucketIndex cap h (Z -> Z) OpenInstances.upd2) ops
-                     {| OpenTable.bk := fun _ => []; OpenTable.bd := fun _ => (fun _ => 0) |} in
-  In k (OpenTable.bk _ s b) ->
-  OpenTable.find n Gen_Open2N2.GetNextBucketIndex h (Z -> Z) Gen_Open2N2.pvGetMaxProbe s k = true.
+  let s := fold_left (OpenInstances.o2_step n h) ops OpenInstances.o2_empty in
+  In k (OpenTable.bk _ s b) -> OpenInstances.o2_find n h s k = true.
 Proof. exact OpenInstances.open2n2_present_key_found. Qed.
 Print Assumptions C13_open2n2_present_key_always_found.
-
+(* ... the count bits of every bucket equal the number of items it holds (so IsFull / GetBounds stay right) ... *)
+Theorem C13_open2n2_bucket_counts_exact :
+  forall n h ops i,
+  0 <= n <= 63 -> (forall k, 0 <= h k < 2 ^ n) ->
+  let s := fold_left (OpenInstances.o2_step n h) ops OpenInstances.o2_empty in
+  BucketOps.O2.cnt (OpenTable.bd _ s i) = Z.of_nat (length (OpenTable.bk _ s i)) /\ (length (OpenTable.bk _ s i) <= 3)%nat.
+Proof. exact OpenInstances.open2n2_counts_exact. Qed.
+Print Assumptions C13_open2n2_bucket_counts_exact.
 (* ... and an insertion reports "Hash table is full" only when no bucket of the table has room. *)
 Theorem C13_open2n2_insert_fails_only_if_all_buckets_full :
-  forall n cap h (s : OpenTable.table (Z -> Z)) k,
+  forall n h (s : OpenTable.table BucketOps.O2.st) k a,
   0 <= n <= 63 -> (forall k, 0 <= h k < 2 ^ n) ->
-  OpenTable.add n Gen_Open2N2.GetNextBucketIndex cap h (Z -> Z) OpenInstances.upd2 s k = None ->
-  forall b, 0 <= b < 2 ^ n -> (cap <= length (OpenTable.bk _ s b))%nat.
+  OpenInstances.o2_add n h s k a = None ->
+  forall b, 0 <= b < 2 ^ n -> (3 <= length (OpenTable.bk _ s b))%nat.
 Proof. exact OpenInstances.open2n2_full_only_if_all_full. Qed.
 Print Assumptions C13_open2n2_insert_fails_only_if_all_buckets_full.
 
 Theorem C13_open8_openn1_present_key_always_found :
-  forall mc n cap h ops b k,
-  0 <= n <= 63 -> (forall k, 0 <= h k < 2 ^ n) ->
-  let s := fold_left (OpenTable.step n Gen_Open8.GetNextBucketIndex cap h (Z -> Z) (OpenInstances.updN mc)) ops
-                     {| OpenTable.bk := fun _ => []; OpenTable.bd := fun _ => (fun _ => 0) |} in
-  In k (OpenTable.bk _ s b) ->
-  OpenTable.find n Gen_Open8.GetNextBucketIndex h (Z -> Z) (fun st => Gen_OpenN1.GetMaxProbe mc st n) s k = true.
+  forall rv mc n h ops b k,
+  1 <= mc <= 7 -> 0 <= n <= 63 -> (forall k, 0 <= h k < 2 ^ n) ->
+  let s := fold_left (OpenInstances.n1_step rv mc n h) ops (OpenInstances.n1_empty mc) in
+  In k (OpenTable.bk _ s b) -> OpenInstances.n1_find mc n h s k = true.
 Proof. exact OpenInstances.open8_present_key_found. Qed.
 Print Assumptions C13_open8_openn1_present_key_always_found.
-
+Theorem C13_open8_openn1_bucket_counts_exact :
+  forall rv mc n h ops i,
+  1 <= mc <= 7 -> 0 <= n <= 63 -> (forall k, 0 <= h k < 2 ^ n) ->
+  let s := fold_left (OpenInstances.n1_step rv mc n h) ops (OpenInstances.n1_empty mc) in
+  BucketOps.N1.cnt rv mc (OpenTable.bd _ s i) = Z.of_nat (length (OpenTable.bk _ s i)) /\
+  (length (OpenTable.bk _ s i) <= Z.to_nat mc)%nat.
+Proof. exact OpenInstances.open8_counts_exact. Qed.
+Print Assumptions C13_open8_openn1_bucket_counts_exact.
 Theorem C13_open8_openn1_insert_fails_only_if_all_buckets_full :
-  forall mc n cap h (s : OpenTable.table (Z -> Z)) k,
+  forall rv mc n h (s : OpenTable.table (Z -> Z)) k a,
   0 <= n <= 63 -> (forall k, 0 <= h k < 2 ^ n) ->
-  OpenTable.add n Gen_Open8.GetNextBucketIndex cap h (Z -> Z) (OpenInstances.updN mc) s k = None ->
-  forall b, 0 <= b < 2 ^ n -> (cap <= length (OpenTable.bk _ s b))%nat.
+  OpenInstances.n1_add rv mc n h s k a = None ->
+  forall b, 0 <= b < 2 ^ n -> (Z.to_nat mc <= length (OpenTable.bk _ s b))%nat.
 Proof. exact OpenInstances.open8_full_only_if_all_full. Qed.
 Print Assumptions C13_open8_openn1_insert_fails_only_if_all_buckets_full.
 
@@ -110,3 +163,11 @@ Theorem C13_open2n2_all_instantiations_same_code :
    Gen_Open2N2_nf.pvGetCount = Gen_Open2N2.pvGetCount /\ Gen_Open2N2_nf.GetNextBucketIndex = Gen_Open2N2.GetNextBucketIndex).
 Proof. exact SameCode.same_all. Qed.
 Print Assumptions C13_open2n2_all_instantiations_same_code.
+(* ... and the module that additionally translates AddCrt / Remove / pvSetEmpty carries the same encoder code. *)
+Theorem C13_ops_module_same_encoder_code :
+  (forall m s h p, Gen_Open2N2_ops.UpdateMaxProbe m s h p = Gen_Open2N2.UpdateMaxProbe m p) /\
+  (forall m s h, Gen_Open2N2_ops.pvGetMaxProbe m s h = Gen_Open2N2.pvGetMaxProbe m) /\
+  (forall m s h, Gen_Open2N2_ops.pvGetCount m s h = Gen_Open2N2.pvGetCount m) /\
+  (forall mc d, Gen_OpenN1_ops.pvGetCount true mc d = Gen_OpenN1.pvGetCount mc d).
+Proof. exact SameCode.same_ops. Qed.
+Print Assumptions C13_ops_module_same_encoder_code.
